@@ -1006,7 +1006,11 @@ func (st *Runtime) evalMultiplicativeExpression(node *MultiplicativeExprNode) re
 			if needFloatPromotion {
 				left = reflect.ValueOf(float64(left.Int()) / right.Float())
 			} else {
-				left = reflect.ValueOf(left.Int() / toInt(right))
+				divisor := toInt(right)
+				if divisor == 0 {
+					node.Right.errorf("integer division by zero")
+				}
+				left = reflect.ValueOf(left.Int() / divisor)
 			}
 		} else if isFloat(kind) {
 			left = reflect.ValueOf(left.Float() / toFloat(right))
@@ -1014,18 +1018,34 @@ func (st *Runtime) evalMultiplicativeExpression(node *MultiplicativeExprNode) re
 			if needFloatPromotion {
 				left = reflect.ValueOf(float64(left.Uint()) / right.Float())
 			} else {
-				left = reflect.ValueOf(left.Uint() / toUint(right))
+				divisor := toUint(right)
+				if divisor == 0 {
+					node.Right.errorf("integer division by zero")
+				}
+				left = reflect.ValueOf(left.Uint() / divisor)
 			}
 		} else {
 			node.Left.errorf("a non numeric value in multiplicative expression")
 		}
 	case itemMod:
 		if isInt(kind) {
-			left = reflect.ValueOf(left.Int() % toInt(right))
+			divisor := toInt(right)
+			if divisor == 0 {
+				node.Right.errorf("integer division by zero")
+			}
+			left = reflect.ValueOf(left.Int() % divisor)
 		} else if isFloat(kind) {
-			left = reflect.ValueOf(int64(left.Float()) % toInt(right))
+			divisor := toInt(right)
+			if divisor == 0 {
+				node.Right.errorf("integer division by zero")
+			}
+			left = reflect.ValueOf(int64(left.Float()) % divisor)
 		} else if isUint(kind) {
-			left = reflect.ValueOf(left.Uint() % toUint(right))
+			divisor := toUint(right)
+			if divisor == 0 {
+				node.Right.errorf("integer division by zero")
+			}
+			left = reflect.ValueOf(left.Uint() % divisor)
 		} else {
 			node.Left.errorf("a non numeric value in multiplicative expression")
 		}
